@@ -90,6 +90,7 @@ class World:
 
         world = self
         self.log = []
+        self.log_self = []  # the object each executor call ran on
         self.Event, self.Jet = make_typed_model()
 
         class DS(EventDataset):
@@ -103,6 +104,7 @@ class World:
 
             async def execute_result_async(self, a, title=None):
                 world.log.append((self.idx, a, title))
+                world.log_self.append(self)
                 if self.fail:
                     raise EXC[len(world.log) % len(EXC)](("boom", self.idx, len(world.log)))
                 return ("tok", self.idx, len(world.log))
@@ -229,7 +231,7 @@ class World:
             self.qmd[-1].update(d)
             if self.track_twin:
                 self.twin.append(self.twin[i])
-        elif name in ("Value", "ValueT", "ValueOv", "ValueAsync", "ValueMut"):
+        elif name in ("Value", "ValueT", "ValueOv", "ValueAsync", "ValueMut", "ValueOvFalsy", "ValueOvAw"):
             before = self.observe(s)
             expected_ast = dump_without_empty_metadata(s.query_ast, self.ds_index)
             n0 = len(self.log)
@@ -240,6 +242,15 @@ class World:
                 async def override(a, title=None):
                     ov_log.append((a, title))
                     return ("ov", len(ov_log))
+            ov_token = ("ov", 1)
+            if name == "ValueOvFalsy":
+                override = FalsyExecutor(ov_log)  # a callable that is false in a boolean context (an empty recorder)
+            if name == "ValueOvAw":
+                ov_token = Handle()
+
+                async def override(a, title=None, ov_token=ov_token):
+                    ov_log.append((a, title))
+                    return ov_token  # the result is itself awaitable (a job handle): it is the result, not a step
             if name == "ValueMut":
                 async def override(a, title=None):
                     # a back end that normalises the tree it is handed IN PLACE (as NodeTransformers do)
@@ -254,16 +265,35 @@ class World:
                         ret = ("pending",)
                     except StopIteration as e:
                         ret = ("ret", e.value)
-                elif name in ("ValueOv", "ValueMut"):
+                elif override is not None:
                     ret = ("ret", s.value(executor=override, title=title))
                 else:
                     ret = ("ret", s.value(title=title))
             except EXC as e:
                 ret = ("raise", type(e).__name__, e.args[0])
             self.last = dict(target=i, before=before, expected_ast=expected_ast, n0=n0, title=title, ret=ret,
-                             override=name == "ValueOv", ov_log=ov_log)
+                             override=name in ("ValueOv", "ValueOvFalsy", "ValueOvAw"), ov_log=ov_log, ov_token=ov_token)
         else:
             raise ValueError(name)
+
+
+class FalsyExecutor:
+    def __init__(self, log):
+        self.log = log
+
+    def __len__(self):
+        return 0
+
+    async def __call__(self, a, title=None):
+        self.log.append((a, title))
+        return ("ov", len(self.log))
+
+
+class Handle:
+    "an awaitable result object"
+
+    def __await__(self):
+        return iter(())
 
 
 def scribble(a):
@@ -397,6 +427,12 @@ def history_code(roots, hist):
             code = f"print('value ->', streams[{i}].value())"
         elif name == "ValueT":
             code = f"print('value ->', streams[{i}].value(title='t'))"
+        elif name == "ValueOvFalsy":
+            code = ("class Rec:\n    def __len__(self): return 0\n    async def __call__(self, a, title=None): return ('ov', ast.dump(a))\n"
+                    f"print('value ->', streams[{i}].value(executor=Rec()))")
+        elif name == "ValueOvAw":
+            code = ("class Handle:\n    def __await__(self): return iter(())\nH = Handle()\nasync def override(a, title=None):\n    return H\n"
+                    f"assert streams[{i}].value(executor=override) is H")
         elif name == "ValueOv":
             code = f"async def override(a, title=None):\n    return ('ov', ast.dump(a))\nprint('value ->', streams[{i}].value(executor=override))"
         else:
